@@ -43,6 +43,10 @@ def mk_timepoint(E, st, prefix, date="cal", time="hms", fresh=False, tag="p:",
     R = lambda n: z3.Real(tag + prefix + "." + n)
     RI = (lambda n: z3.ToReal(z3.Int(tag + prefix + "." + n))) if integral else R
     slots = {k: None for k in TP_SLOTS}
+    # slots the real class declares beyond the known ones (e.g. added by a
+    # change under test) start as None
+    for k in getattr(E.db.class_by_name["TimePoint"].real, "__slots__", ()):
+        slots.setdefault(k, None)
     slots["_num_expanded_year_digits"] = ned
     slots["_truncated"] = False
     slots["_year"] = I("_year")
